@@ -14,8 +14,9 @@ import (
 type C10Base struct{ ID int8 }
 
 type c10elem struct {
-	N string
-	V int8
+	N      string
+	hidden int // element structs are not pointerified: unexported fields survive into the transformer
+	V      int8
 }
 
 type C10Mid struct {
@@ -28,8 +29,9 @@ type C10Mid struct {
 type c10cfg2 struct {
 	First int8
 	C10Mid
-	Items []c10elem
-	Last  uint8
+	Items  []c10elem
+	Stamps []c10tu // slice of text-unmarshalable structs (like []time.Time)
+	Last   uint8
 }
 
 // c10locate finds the translated field called name at the top level or inside struct-typed
@@ -118,6 +120,7 @@ func HarnessC10Embedded() {
 	}
 	sFirst, sID, sK, sM1, sLast := zzverif.Bool("first"), zzverif.Bool("id"), zzverif.Bool("k"), zzverif.Bool("m1"), zzverif.Bool("last")
 	mList, mItems := zzverif.Choose("list", 3), zzverif.Choose("items", 3)
+	sStamps := zzverif.Bool("stamps")
 	ev := zzverif.Int8("ev")
 	idv := zzverif.Int8("idv")
 	put := func(name string, x interface{}) bool {
@@ -160,6 +163,22 @@ func HarnessC10Embedded() {
 		}
 		f.Set(c10elems(f.Type(), mItems, ev))
 	}
+	if sStamps {
+		f, ok := c10locate(val, "Stamps", 0)
+		if !ok {
+			zzverif.Fail("C10 embedded: the translated type has no field for leaf Stamps")
+			return
+		}
+		zzverif.Assert(f.Type() == reflect.TypeOf([]c10tu(nil)) || f.Type() == reflect.TypeOf([]string(nil)), "C10 embedded: a slice of text-unmarshalable structs was rebuilt as "+f.Type().String()+" (its elements can no longer carry a value)")
+		switch f.Type() {
+		case reflect.TypeOf([]c10tu(nil)):
+			f.Set(reflect.ValueOf([]c10tu{{v: 'x'}}))
+		case reflect.TypeOf([]string(nil)):
+			f.Set(reflect.ValueOf([]string{"x"}))
+		default:
+			f.Set(reflect.MakeSlice(f.Type(), 1, 1))
+		}
+	}
 	out, rerr := tfm.ReverseTranslate(val)
 	zzverif.Assert(rerr == nil, "C10 embedded: ReverseTranslate failed")
 	if rerr != nil {
@@ -176,6 +195,11 @@ func HarnessC10Embedded() {
 		zzverif.Assert(f("Last").Elem().Uint() == 8, "C10 embedded: Last changed value")
 	}
 	c10chkElems(f("Items"), mItems, ev, "Items")
+	zzverif.Assert(f("Stamps").IsNil() == !sStamps, "C10 embedded: Stamps set/unset wrongly")
+	if sStamps && !f("Stamps").IsNil() {
+		st := f("Stamps")
+		zzverif.Assert(st.Len() == 1 && st.Index(0).FieldByName("v").Uint() == 'x', "C10 embedded: an element of a slice of text-unmarshalable structs lost its value")
+	}
 	midSet := sID || sK || sM1 || mList != 0
 	mid := out.Field(1)
 	zzverif.Assert(mid.IsNil() == !midSet, "C10 embedded: the embedded struct is set although none of its leaves was written, or unset although one was")
